@@ -62,7 +62,7 @@ Mechs == <<
    inputs |-> <<"client_id", "client_secret", "token_url", "scopes">>,
    shifts |-> <<"client_id|client_secret", "token_url|scopes", "scopes.a|b">>, hdr |-> FALSE, val |-> TRUE, hdrdef |-> 0],
   [m |-> "httpcache", policy |-> <<>>,
-   inputs |-> <<"url", "method", "authorization", "body", "url_case", "url_query_case", "authorization_case">>,
+   inputs |-> <<"url", "method", "authorization", "body", "url_case", "url_query_case", "authorization_case", "vary_header">>,
    shifts |-> <<"url|method">>, hdr |-> FALSE, val |-> FALSE, hdrdef |-> 0]
 >>
 
